@@ -82,6 +82,9 @@ SEED = {
  "seedpatch-C02-d-on-C02": ("C02", "/verif/seeded/C02-d/patch.diff"),
  "seedpatch-C02-d-on-C03": ("C03", "/verif/seeded/C02-d/patch.diff"),
  "seedpatch-C03-d": ("C03", "/verif/seeded/C03-d/patch.diff"),
+ "seedpatch-C04-e": ("C04", "/verif/seeded/C04-e/patch.diff"),
+ "seedpatch-C01-d": ("C01", "/verif/seeded/C01-d/patch.diff"),
+ "seedpatch-C03-e": ("C03", "/verif/seeded/C03-e/patch.diff"),
 }
 ENV = dict(os.environ, GOFLAGS="-mod=mod", GOPROXY="off", GOSUMDB="off", GOTOOLCHAIN="local")
 BASE = "go test -vet=off -count=1 ./bint/... ./eth/... ./jrpc2/... ./shovel/config/... ./shovel/glf/... ./wctx/... ./wos/... ./wslog/..."
